@@ -93,12 +93,11 @@ Definition axis4 := (nat * nat * Qc * Qc)%type.
 Definition lap_ent (kinds : list dkind) (e : bool) (axes : list axis4) : ent :=
   fold_right (fun p acc => let '(k, (n, inner, w, s)) := p in e_add (e_scale w (e_along inner n n (sd_M k e s n))) acc)
              e_zero (combine kinds axes).
-(* Laplacian: documented = same kind on every axis (code 1); as coded today = kind on the first
-   listed axis, centred on the others (code 4, informative) *)
+(* Laplacian: weighted sum over the axes of the documented SecondDerivative stencil, same kind and
+   edge on every axis *)
 Definition mkLap id (k : dkind) (e : bool) (N : nat) (axes : list axis4) A B : case :=
   let doc := lap_ent (map (fun _ => k) axes) e axes in
-  let coded := lap_ent (k :: map (fun _ => Centered) (tl axes)) e axes in
-  {| cid := id; rows := N; cols := N; frefs := [(1%Z, doc); (4%Z, coded)]; arefs := [(3%Z, e_T doc)]; cA := A; cB := B |}.
+  {| cid := id; rows := N; cols := N; frefs := [(1%Z, doc)]; arefs := [(3%Z, e_T doc)]; cA := A; cB := B |}.
 (* Gradient: vertical stack over the axes of FirstDerivative (order 3) *)
 Definition grad_ents (k : dkind) (e : bool) (axes : list axis4) : list ent :=
   map (fun p => let '(n, inner, w, s) := p in e_along inner n n (fd_M k false e s n)) axes.
